@@ -272,7 +272,19 @@ public:
   void setFather(const std::shared_ptr<N>  nodeObject, const std::shared_ptr<N> fatherNodeObject, const std::shared_ptr<E> edgeObject = 0)
   {
     if (edgeObject)
-      this->getGraph()->setFather(this->getNodeGraphid(nodeObject), this->getNodeGraphid(fatherNodeObject), this->getEdgeGraphid(edgeObject));
+    {
+      // everything is checked before the former link is removed
+      const NodeGraphid node = this->getNodeGraphid(nodeObject);
+      this->getNodeGraphid(fatherNodeObject);
+      const bool hadFather = this->getGraph()->hasFather(node);
+      // the edge object may only be the one carried by the link which is replaced
+      if (this->hasEdge(edgeObject) && !(hadFather && this->getEdgeGraphid(edgeObject) == this->getGraph()->getEdgeToFather(node)))
+        throw Exception("AssociationTreeGraphImplObserver::setFather: the given edge is already associated to another relation: " + this->edgeToString(edgeObject));
+      if (hadFather)
+        this->getGraph()->removeSon(this->getGraph()->getFatherOfNode(node), node);
+      // new link, with the edge object associated to it
+      this->link(fatherNodeObject, nodeObject, edgeObject);
+    }
     else
       this->getGraph()->setFather(this->getNodeGraphid(nodeObject), this->getNodeGraphid(fatherNodeObject));
   }
@@ -288,7 +300,8 @@ public:
   void addSon(const std::shared_ptr<N>  nodeObject, const std::shared_ptr<N> sonNodeObject, const std::shared_ptr<E> edgeObject = 0)
   {
     if (edgeObject)
-      this->getGraph()->addSon(this->getNodeGraphid(nodeObject), this->getNodeGraphid(sonNodeObject), this->getEdgeGraphid(edgeObject));
+      // new link, with the edge object associated to it
+      this->link(nodeObject, sonNodeObject, edgeObject);
     else
       this->getGraph()->addSon(this->getNodeGraphid(nodeObject), this->getNodeGraphid(sonNodeObject));
   }
